@@ -258,7 +258,9 @@ func effectAMD64(in *Instr) (*Effect, error) {
 		switch dst.Kind {
 		case OReg:
 			e.Writes = append(e.Writes, dst.Reg)
-			if strings.Contains(op, "INSR") {
+			// the legacy two-operand insert keeps the other lanes of its destination; the VEX form with a separate source
+			// vector (VPINSRQ $i, r, Vsrc, Vdst) takes them from Vsrc and only writes Vdst
+			if strings.Contains(op, "INSR") && !(strings.HasPrefix(op, "V") && len(a) == 4) {
 				e.Reads = append(e.Reads, dst.Reg)
 			}
 		case OMem, OSym:
